@@ -13,6 +13,7 @@
 //!   cont <hex tail>               lexerr of `x = 1 + \<tail>`
 //!   strlex <hex>                  text over ' " a \ newline, parsed as a module
 //!   parse <hex>                   parse (module), `ok` / `(err Kind off)` absolute offset
+//!   site <rule> <lo> <hi> <hex edited> <hex original>   result for the edited text + ` base=ok|rejected`
 //!   fstr <hex body>               parse `f'<body>'`, offset relative to the body start
 //!   strs <enc> <pre> <post>       implicit concatenation of literal kinds (b/s/f/u/r/R/F)
 //!   bytes <hex body> <pre> <post> `b'<body>'`, offset relative to the body start
@@ -312,6 +313,17 @@ fn handle(ws: &[&str]) -> String {
         ["num", t] | ["parse", t] | ["strlex", t] => match unhex_str(t) {
             Some(t) => judge("", &t, ""),
             None => bad(),
+        },
+        // site <rule> <lo> <hi> <edited> <original>: the edited text, and whether the original parses
+        ["site", _rule, _lo, _hi, t, orig] => match (unhex_str(t), unhex_str(orig)) {
+            (Some(t), Some(o)) => {
+                let base = match guard(|| run(&o)) {
+                    Some(Ok(())) => "ok",
+                    _ => "rejected",
+                };
+                format!("{} base={}", judge("", &t, ""), base)
+            }
+            _ => bad(),
         },
         ["lexerr", t] => match unhex_str(t) {
             Some(t) => lexerr(&t),
